@@ -6,6 +6,7 @@ import (
 	"path/filepath"
 	"regexp"
 	"strings"
+	"time"
 
 	"verif/cli"
 	"verif/work"
@@ -199,6 +200,18 @@ func checkC19(c *Ctx) error {
 		c.Eval("regenerate-after-failed-attempts", true)
 		if run.Res.Exit != 0 || normGen(got) != want {
 			c.Violate("regeneration-after-failed-attempts-differs", fmt.Sprintf("after failed attempts the complete regeneration gives exit %d, equal to the checked-in file: %v", run.Res.Exit, normGen(got) == want), nil)
+		}
+	}
+	// run the way `go generate` runs a command (GOPACKAGE, GOFILE, GOLINE, GOARCH, GOOS exported, from the directory of the
+	// file holding the directive): the environment is no input
+	{
+		out := filepath.Join(w.TempDir("c19g"), "gontainer.go")
+		env := append(w.SaneEnv(), "GOPACKAGE=main", "GOFILE=main.go", "GOLINE=20", "GOARCH=amd64", "GOOS=linux", "DOLLAR=$", "GOMAXPROCS=2")
+		res := work.Run(bin, w.Repo, env, 120*time.Second, nil, selfArgs(out, false)...)
+		c.Eval("go-generate-environment", true)
+		got, _ := os.ReadFile(out)
+		if res.Exit != 0 || normGen(got) != want {
+			c.Violate("self-config-under-go-generate-environment", fmt.Sprintf("the self configuration regenerated with the variables go generate exports: exit %d, output equal to the checked-in file: %v\n%s", res.Exit, normGen(got) == want, firstDiff(want, normGen(got))), nil)
 		}
 	}
 	// other ways of reaching the same files: the tool's configuration through a linked directory, through per-file links
